@@ -24,7 +24,24 @@ import (
 	"verif/gosym/sym"
 )
 
-const repoDir = "/repo"
+// repoDir is /repo for every registered command; GOSYM_REPO (development: seeded
+// copies checked beside the real tree) points the whole pipeline at another checkout,
+// and then evidence and replays go under out/scratch/<base name>/ so the real ones stay.
+var repoDir = envOr("GOSYM_REPO", "/repo")
+
+func outDir(verif string) string {
+	if repoDir != "/repo" {
+		return filepath.Join(verif, "out", "scratch", filepath.Base(repoDir))
+	}
+	return filepath.Join(verif, "out")
+}
+
+func evidenceDir(verif string) string {
+	if repoDir != "/repo" {
+		return filepath.Join(outDir(verif), "evidence")
+	}
+	return filepath.Join(verif, "evidence")
+}
 
 func verifDir() string {
 	if v := os.Getenv("VERIF_DIR"); v != "" {
@@ -307,7 +324,7 @@ func cmdCheck(args []string) int {
 	if !*noReplay {
 		for pkgDir, cases := range byPkg {
 			sort.Slice(cases, func(i, j int) bool { return cases[i].ID < cases[j].ID })
-			dir := filepath.Join(verif, "out", "replays", prop, strings.ReplaceAll(pkgDir, "/", "_"))
+			dir := filepath.Join(outDir(verif), "replays", prop, strings.ReplaceAll(pkgDir, "/", "_"))
 			ev, err := nativeReplay(verif, hs, pkgDir, cases, dir)
 			if err != nil {
 				inconLines = append(inconLines, fmt.Sprintf("INCONCLUSIVE property=%s reason=native replay failed for %s: %v", prop, pkgDir, err))
@@ -353,7 +370,7 @@ func cmdCheck(args []string) int {
 			}
 			violTotal++
 			// keep a per-violation replay directory
-			vdir := filepath.Join(verif, "out", "replays", prop, r.Name+"-"+v.Label)
+			vdir := filepath.Join(outDir(verif), "replays", prop, r.Name+"-"+v.Label)
 			saveSingleReplay(verif, hs, r.PkgDir, replayCase{ID: id, Harness: r.Name, Vector: v.Vector, Tier: tierN, Params: toIntMap(pm)}, vdir)
 			violLines = append(violLines, fmt.Sprintf("VIOLATION property=%s replay=%s", prop, vdir))
 			fmt.Printf("  violated: harness=%s label=%s kind=%s %s %s\n  native: %s\n  vector: %s\n", r.Name, v.Label, v.Kind, v.Msg, v.Pos, how, vecString(v.Vector))
